@@ -10,12 +10,12 @@ use serde_json::{json, Value};
 
 pub const SYSCTL: &str = "/proc/sys/fs/protected_symlinks";
 
-const IDENTITIES: [(&str, u32, bool); 4] = [("root", 0, false), ("root-nocaps", 0, true), ("uid1000", 1000, false), ("uid1001", 1001, false)];
+const IDENTITIES: [(&str, u32, bool); 5] = [("root", 0, false), ("root-nocaps", 0, true), ("uid1000", 1000, false), ("uid1001", 1001, false), ("root-then-seteuid1000", 0, false)];
 const DIR_MODES: [u32; 6] = [0o755, 0o777, 0o1755, 0o1777, 0o1775, 0o1757];
 const OWNERS: [u32; 3] = [0, 1000, 1001];
 
-/// items 0..4 run with the sysctl at 1, items 4..8 with 0 (the parent switches the global value between the two phases)
-pub fn n_items(_tier: &str) -> usize { 8 }
+/// items 0..5 run with the sysctl at 1, items 5..10 with 0 (the parent switches the global value between the two phases)
+pub fn n_items(_tier: &str) -> usize { 10 }
 
 pub fn read_sysctl() -> Option<u32> { std::fs::read_to_string(SYSCTL).ok().and_then(|s| s.trim().parse().ok()) }
 pub fn write_sysctl(v: u32) -> MResult<()> { std::fs::write(SYSCTL, format!("{}\n", v)).map_err(|e| Mach(format!("cannot write {}: {}", SYSCTL, e))) }
@@ -28,8 +28,8 @@ fn chown(p: &str, uid: u32) -> MResult<()> {
 
 pub fn run_item(_tier: &str, idx: usize, only: Option<&Value>) -> MResult<ItemResult> {
     let mut res = ItemResult::default();
-    let want_sysctl = if idx < 4 { 1 } else { 0 };
-    let (iname, uid, nocaps) = IDENTITIES[idx % 4];
+    let want_sysctl = if idx < 5 { 1 } else { 0 };
+    let (iname, uid, nocaps) = IDENTITIES[idx % 5];
     if read_sysctl() != Some(want_sysctl) { return mach(format!("fs.protected_symlinks is {:?}, this item needs {} (the parent sets it)", read_sysctl(), want_sysctl)); }
     enter_jail()?;
     let root_out = out(ROOT_IN);
@@ -37,6 +37,18 @@ pub fn run_item(_tier: &str, idx: usize, only: Option<&Value>) -> MResult<ItemRe
     let setup = |deny: Vec<String>| Setup { jail: JAIL.into(), deny, uid, gid: uid, drop_caps: nocaps, ..Default::default() };
     let mut k = Wk::spawn("K", &setup(vec![]))?;
     let mut e = Wk::spawn("E", &setup(vec!["openat2".into()]))?;
+    if iname == "root-then-seteuid1000" {
+        // the process follows a symlink as root first (whatever the library caches about the caller is cached now),
+        // then switches its effective uid; every later lookup must be judged for the new uid
+        clear_dir(&root_out)?;
+        std::fs::write(format!("{}/t", root_out), b"t").map_err(|e| Mach(e.to_string()))?;
+        std::os::unix::fs::symlink("t", format!("{}/first", root_out)).map_err(|e| Mach(e.to_string()))?;
+        for w in [&mut k, &mut e] {
+            let o = w.one(Op::new("resolve").root(ROOT_IN).path("first"))?;
+            if !o.ok { return mach("priming lookup failed"); }
+            w.one(Op::new("seteuid").num(1000))?;
+        }
+    }
     for (mi, mode) in DIR_MODES.iter().enumerate() {
         for downer in OWNERS {
             for lowner in OWNERS {
@@ -98,7 +110,7 @@ pub fn run_item(_tier: &str, idx: usize, only: Option<&Value>) -> MResult<ItemRe
 pub fn report(_tier: &str) -> Report {
     Report {
         level: "exploration",
-        rule: format!("all {} combinations: sysctl {{1,0}} x caller {{root, root without any capability, uid 1000, uid 1001}} x directory mode {:?} x directory owner {{0,1000,1001}} x link owner {{0,1000,1001}} x {{trailing link (resolve, open), intermediate link (resolve, open), link reached as the last component of another link's body, link not followed (resolve_nofollow, readlink)}}; the emulated backend must answer EACCES exactly where the kernel backend (same user, same tree) does; fresh worker processes per sysctl value; non-trivial = cases in a sticky world-writable directory or refused by the kernel", 2 * 4 * DIR_MODES.len() * 9 * 9, DIR_MODES.iter().map(|m| format!("{:o}", m)).collect::<Vec<_>>()),
+        rule: format!("all {} combinations: sysctl {{1,0}} x caller {{root, root without any capability, uid 1000, uid 1001, root that switches to euid 1000 after its first symlink lookup}} x directory mode {:?} x directory owner {{0,1000,1001}} x link owner {{0,1000,1001}} x {{trailing link (resolve, open), intermediate link (resolve, open), link reached as the last component of another link's body, link not followed (resolve_nofollow, readlink)}}; the emulated backend must answer EACCES exactly where the kernel backend (same user, same tree) does; fresh worker processes per sysctl value; non-trivial = cases in a sticky world-writable directory or refused by the kernel", 2 * 5 * DIR_MODES.len() * 9 * 9, DIR_MODES.iter().map(|m| format!("{:o}", m)).collect::<Vec<_>>()),
         assumptions: vec!["fs.protected_symlinks is writable (root, global sysctl); the check restores the original value on exit".into(), "the kernel backend (openat2) is the reference for the kernel's rule".into()],
         exhaustive: true,
         extra: json!({}),
